@@ -36,7 +36,29 @@ OWN_DEFECT = [
     doc('<SYSTEM><SHORT-NAME>Sys\x1f</SHORT-NAME></SYSTEM>'),
     doc(SYS % '<DESC><L-2 L="\x01EN">a</L-2></DESC>'),           # unknown enum value, idem
     doc(SYS % '<DESC><L-2 L="EN\x0b">a</L-2></DESC>'),
+] + [
+    # unknown attributes whose names look like the known namespace / xml attributes, on several element kinds and in both quoting styles
+    doc('<SYSTEM %s><SHORT-NAME>Sys</SHORT-NAME></SYSTEM>' % a) for a in ('xmlns:ext="x"', "xmlns:ext='x'", 'xsi:foo="x"', 'xml:lang="en"', 'xmlns:="x"', 'UUIDX="1"', 'S="a" xmlns:q="x"')
+] + [
+    doc(SYS % '<CATEGORY xmlns:ext="x">c</CATEGORY>'), doc(SYS % '<DESC><L-2 L="EN" xmlns:ext="x">a</L-2></DESC>'),
+    doc(SYS % '').replace('<AR-PACKAGE>', '<AR-PACKAGE xmlns:ext="x">'),
+    doc(SYS % '').replace(' xmlns:xsi=', ' xmlns:ext="x" xmlns:xsi='),
 ]
+
+
+def header_variants():
+    """Valid documents whose schema location names the xsd file oddly: multi-byte characters at every offset, case variants, very
+    short and very long names (C02: no panic, error lines in range; the string layer of parse_file_header is not under contract)."""
+    out = []
+    base = doc(SYS % '')
+    names = ['autosar_00050.xsd', 'AUTOSAR_00050.xsd', 'Autosar_00050.xsd', 'autosar', 'AUTOSAR', 'autosa', 'a', '']
+    for nm in names:
+        for ch in ('\u00e9', '\u20ac', '\U0001F600', '\x7f', ' '):
+            for k in range(0, min(len(nm), 12) + 1):
+                out.append(base.replace('AUTOSAR_00050.xsd', nm[:k] + ch + nm[k:]))
+    out += [base.replace('AUTOSAR_00050.xsd', x) for x in ('', ' ', 'x' * 300, 'AUTOSAR_4-3-1.xsd', 'autosar_4-4-0.xsd', 'AUTOSAR_00050.xsd extra words here')]
+    out += [base.replace('http://autosar.org/schema/r4.0 AUTOSAR', pre + ' AUTOSAR') for pre in ('', '\u00e9', 'http://autosar.org/schema/r4.0\u00e9', 'http://autosar.org/schema/r4.0 ')]
+    return out
 
 
 def fixtures(repo_dir):
